@@ -13,6 +13,9 @@ PROP = dict(
         dict(module="MCClientBody", cfg="MCClientBody_mut_bodynotswitched.cfg", expect_violation="AuthHolds", timeout=300),
         dict(module="MCClientBody", cfg="MCClientBody_mut_quotefastpath.cfg", expect_violation="BodyHolds", timeout=300),
         dict(module="MCClientBody", cfg="MCClientBody_mut_latectset.cfg", expect_violation="BodyHolds", timeout=300),
+        dict(module="MCClientBody", cfg="MCClientBody_mut_shadowcopyerr.cfg", expect_violation="AuthHolds", timeout=300),
+        dict(module="MCClientBody", cfg="MCClientBody_mut_debuglategetbody.cfg", expect_violation="AuthHolds", timeout=300),
+        dict(module="MCClientBody", cfg="MCClientBody_mut_rewindseek.cfg", expect_violation="BodyHolds", timeout=300),
         # uploads overlapping in time: every interleaving of the writers' sniff / copy steps keeps each part's content;
         # with a sniffing buffer shared between writers TLC finds the corrupting interleaving
         dict(module="MCClientBodyOverlap", cfg="MCClientBodyOverlap.cfg", timeout=300),
@@ -33,7 +36,9 @@ PROP = dict(
     trace=dict(module="TraceClientBody", cfg="TraceClientBody.cfg"),
     rule="case = one payload (value per registered producer / io.Reader / io.ReadCloser / form fields / files / both) x media type x auth "
          "writer calling GetBody 0..3 times x CreateHttpRequest or Submit, or a batch of such requests overlapping in time (all built before "
-         "the first is sent, on one P and on all Ps, or 48 concurrent Submits); exhaustive part: stream/value payloads x GET/OPTIONS/POST/PUT/"
+         "the first is sent, on one P and on all Ps, or 48 concurrent Submits); exhaustive part: Runtime.Debug on x auth writers reading the body 0..2 times x streamed/buffered bodies; reader payloads failing "
+         "once at offset 0/1/mid/last x GetBody 0..3 times (the call fails or C11 holds in full); seekable uploads (os.File, in-memory seeker) "
+         "handed over at offsets 0..600; stream/value payloads x GET/OPTIONS/POST/PUT/"
          "PATCH/DELETE x a Content-Type pre-set by the params writer; file, field and form-key names with backslashes before specials, "
          "doubled and trailing (no quote); one file of every length around the 512-byte "
          "window x 5 content heads x NUL positions x source read sizes (1, 7, 511, 512, 513, all) x declared or not x EOF-with-data; real "
@@ -43,6 +48,6 @@ PROP = dict(
     assumptions=COMMON_ASSUME + [
         "operations are well-formed: a body payload and form fields/files are not combined; form fields/files come with the urlencoded or multipart media type; a value payload's media type has a registered producer",
         "file and field names contain no CR/LF/control bytes (not transportable in a MIME header); declared content types are non-empty",
-        "upload sources have sticky EOF",
+        "upload sources have sticky EOF; a payload reader that fails may fail the call (then nothing is claimed about what was sent)",
     ],
 )
